@@ -128,7 +128,7 @@ PROPS = {
         "engines": [storm("admin")],
         "rule": "each evaluation is one accepted configuration-writing instruction whose post-state is judged against the listed inequalities, e-mode leverage caps (caps read at acceptance time) and the killed-state rule; distinct = quantised (weights, tier, state) and (e-mode entries, liability weights) tuples",
         "assumptions": COMMON_ASSUMPTIONS + ["the initial-implies-maintenance consequence is implied by the checked inequalities (monotone valuation); it is additionally exercised by C04/C05 at equal prices"],
-        "floors": {"quick": {"scen.emode_overlap_borrowed_to_the_limit": 8, "pulse.health_signs_compared/maintenance": 100, "C13.accepted_config_writes/ConfigureBank": 500, "C13.accepted_config_writes/ConfigureBankEmode": 200, "C13.accepted_config_writes/CloneEmode": 100, "C13.accepted_config_writes/PropagateStakedSettings": 10}},
+        "floors": {"quick": {"C13.accepted_config_writes/AddBank": 100, "C13.accepted_config_writes/AddBankWithSeed": 30, "admin.venue_bank_creations_accepted": 20, "admin.bank_creations_rejected": 100, "scen.emode_overlap_borrowed_to_the_limit": 8, "pulse.health_signs_compared/maintenance": 100, "C13.accepted_config_writes/ConfigureBank": 500, "C13.accepted_config_writes/ConfigureBankEmode": 200, "C13.accepted_config_writes/CloneEmode": 100, "C13.accepted_config_writes/PropagateStakedSettings": 10}},
     },
     "C14": {
         "engines": [storm("matrix")],
